@@ -85,6 +85,7 @@ EcOK(r) ==
   /\ (r.k2s > 0 /\ ~K1(r) => Good(r.leg, 3 * ETol))        \* Legendre's relation
 
 \* incomplete integrals at phi: r, tr = <<F, E, D, Pi, G, H>>; past: |phi| >= pi/2
+IdTol(r) == IF K1(r) THEN Coarse ELSE 2 * ETol
 EiOK(r) ==
   LET div == K1(r) /\ r.past            \* the integrals of the first kind diverge at pi/2 when k2 = 1
       ok12(x) == Good(x, ETol)
@@ -99,7 +100,8 @@ EiOK(r) ==
      /\ (~K1(r) => GoodOrSkipped(r.dl[1], 2 * ETol) /\ GoodOrSkipped(r.dl[3], 2 * ETol))
      /\ GoodOrSkipped(r.dl[4], 2 * E3Tol(r)) /\ GoodOrSkipped(r.dl[5], 2 * E3Tol(r)) /\ GoodOrSkipped(r.dl[6], 2 * E3Tol(r))
      \* identities of the header: alpha2 = 0: Pi = F, G = E, H = F - D; otherwise G and H in terms of F and Pi
-     /\ (~div => IF A0(r) THEN GoodOrSkipped(r.id[1], 2 * ETol) /\ GoodOrSkipped(r.id[2], 2 * ETol) /\ GoodOrSkipped(r.id[3], 4 * ETol)
+     \* (for k2 = 1 the R_J based G and H cancel near the pole - "WARNING: large cancellation" in the source - coarse there)
+     /\ (~div => IF A0(r) THEN GoodOrSkipped(r.id[1], IdTol(r)) /\ GoodOrSkipped(r.id[2], IdTol(r)) /\ GoodOrSkipped(r.id[3], 2 * IdTol(r))
                  ELSE GoodOrSkipped(r.id[2], 2 * E3Tol(r)) /\ GoodOrSkipped(r.id[3], 2 * E3Tol(r)))
 
 \* Einv, deltaEinv, am, sn/cn/dn.  An inverse function is judged by the smaller of its forward and backward errors.
